@@ -127,10 +127,6 @@ class CaseSet:
     def _add(self, pline, mline, meta, slot):
         self.probe.append(pline)
         modelled = self.model_ok[slot]
-        if modelled and self.has_lines[slot]:
-            # grains inside slabs/faults are not modelled (quaternion interpolation between sections)
-            if meta.get("kind") in ("g3", "g2") or any(p[0] == 3 for p in meta.get("props", [])):
-                modelled = False
         self.mlines.append(mline if modelled else "let () = out_str \"skip\"")
         meta["slot"] = slot
         self.meta.append(meta)
